@@ -5,7 +5,9 @@ store in `lib/pwauth/ldap`; real authenticator + real `RuntimeState` storage + `
 `cmd/keymasterd`). Users `0` alice, `1` bob (in the directory), `2` carol (never in it);
 passwords `1…5`, `0` = empty. Times in hours relative to the virtual clock.
 
-* `seq <id>`                        fresh state: servers `[up, up]`, alice ↦ 1, bob ↦ 2, primary up, stores empty
+* `seq <id>`                        fresh state: servers `[up, up]`, bind patterns `[e]`, alice ↦ 1, bob ↦ 2, primary up, stores empty
+* `pats <e|n|m>…`                   configured bind patterns in order: `e` names the user's entry, `n` a well-formed DN without
+                                    entry (invalidCredentials), `m` a name the directory answers with invalidDNSyntax
 * `login <u> <pw> <l|u|m>`          name in lower / upper / mixed case (normalised away by the application)
 * `srv <i> <up|down|hang|err<code>>` · `chpw <u> <pw|->` · `anon <0|1>` · `adv <hours>` · `prim <up|slow|down>` · `sync`
 * `tamper <p|c> <u> del` | `colexp <h>` | `foreign <pw> <h>` | `other <pw> <h>` | `save <slot>` | `restore <slot>`
@@ -34,6 +36,16 @@ def parseSrv (t : String) : Option Srv :=
   else if t.startsWith "err" then some .err
   else none
 
+def parsePat (t : String) : Option Pat :=
+  if t == "e" then some .entry else if t == "n" then some .noEntry else if t == "m" then some .malformed else none
+
+def parsePats : List String → Option (List Pat)
+  | [] => some []
+  | t :: rest => do
+    let p ← parsePat t
+    let r ← parsePats rest
+    pure (p :: r)
+
 def parsePrim (t : String) : Option Prim :=
   if t == "up" then some .up else if t == "slow" then some .slow else if t == "down" then some .down else none
 
@@ -50,12 +62,22 @@ def rowStr (now : Nat) : Option Rec → String
 def rowsStr (s : State) : String :=
   s!"{rowStr s.now (s.primary 0)} {rowStr s.now (s.cache 0)} {rowStr s.now (s.primary 1)} {rowStr s.now (s.cache 1)}"
 
-/-- servers that answer the bind, in order, up to and including the first verdict -/
+/-- binds one reachable server answers, pattern by pattern, up to and including the first verdict;
+the flag says whether a verdict was reached -/
+def tracePats (s : State) (u : User) (pw : Pw) (i : Nat) : List Pat → String × Bool
+  | [] => ("", false)
+  | .malformed :: rest => let r := tracePats s u pw i rest; (s!"{i}e" ++ r.1, r.2)
+  | .noEntry :: _ => (s!"{i}-", true)
+  | .entry :: _ => (if s.dir u == some pw then s!"{i}+" else s!"{i}-", true)
+
+/-- binds the servers answer, in loop order (servers outside, patterns inside) -/
 def traceFrom (s : State) (u : User) (pw : Pw) (i : Nat) : List Srv → String
   | [] => ""
   | .down :: rest => traceFrom s u pw (i + 1) rest
-  | .err :: rest => s!"{i}e" ++ traceFrom s u pw (i + 1) rest
-  | .up :: _ => if s.dir u == some pw then s!"{i}+" else s!"{i}-"
+  | .err :: rest => String.join (s.pats.map fun _ => s!"{i}e") ++ traceFrom s u pw (i + 1) rest
+  | .up :: rest =>
+    let r := tracePats s u pw i s.pats
+    if r.2 then r.1 else r.1 ++ traceFrom s u pw (i + 1) rest
 
 def trace (s : State) (u : User) (pw : Pw) : String :=
   if pw = 0 then "-" else
@@ -63,7 +85,7 @@ def trace (s : State) (u : User) (pw : Pw) : String :=
   if t.isEmpty then "-" else t
 
 def seqInit : State :=
-  { init with srv := [.up, .up], now := epoch0,
+  { init with srv := [.up, .up], pats := [.entry], now := epoch0,
               dir := fun u => if u = 0 then some 1 else if u = 1 then some 2 else none }
 
 def absH (now : Nat) (h : Int) : Nat := ((now : Int) + h * (hour : Int)).toNat
@@ -92,6 +114,10 @@ def modelStep (st : St) : List String → St × String
     match u.toNat?, (if pw == "-" then some none else pw.toNat?.map some) with
     | some u, some pw => applyOps st [.changePw u pw]
     | _, _ => (st, "bad-op")
+  | "pats" :: ks =>
+    match parsePats ks with
+    | some l => applyOps st [.setPats l]
+    | none => (st, "bad-op")
   | ["anon", b] =>
     match parseBool b with
     | some b => applyOps st [.setAnon b]
@@ -188,6 +214,8 @@ structure JSt where
   prim : Prim := .up
   /-- ground truth: what each server does (a hanging server is a server that is down) -/
   srv : List Srv := [.up, .up]
+  /-- ground truth: what the directory does with the DN of each configured bind pattern -/
+  pats : List Pat := [.entry]
   rows : Rows := {}
   confirmed : List (Nat × Nat × Int) := []    -- (user, pw, hour) the directory really confirmed
   /-- (user, pw) whose stored hash the directory's rejection evicted from the primary -/
@@ -204,8 +232,20 @@ def cacheH : Int := (cacheDur / hour : Nat)
 def validFor (u pw : Nat) (r : ORow) : Bool :=
   r.ok && r.subj == u && r.type == pwType && r.pw == pw && r.e ≥ 0 && r.c > 0
 
-def traceVerdict (t : String) : Option Bool :=
-  if t.contains '+' then some true else if (t.drop 1).toString.contains '-' then some false else none
+/-- the first verdict in the directory's bind record (`<server><mark>` pairs) -/
+def firstMark : List Char → Option Bool
+  | _ :: '+' :: _ => some true
+  | _ :: '-' :: _ => some false
+  | _ :: _ :: rest => firstMark rest
+  | _ => none
+
+def traceVerdict (t : String) : Option Bool := firstMark t.toList
+
+/-- ground truth: does some (server, pattern) pair give verdicts, and what the directory says then -/
+def JSt.answers (j : JSt) : Bool := j.srv.any (· == Srv.up) && j.pats.any (· != Pat.malformed)
+
+def JSt.dirOK (j : JSt) (u pw : Nat) : Bool :=
+  pw != 0 && (j.pats.find? (· != Pat.malformed) == some Pat.entry) && j.dir u == some pw
 
 def splitArrow (fs : List String) : List String × List String :=
   (fs.takeWhile (· ≠ "=>"), (fs.dropWhile (· ≠ "=>")).drop 1)
@@ -214,14 +254,15 @@ def judgeLogin (j : JSt) (u pw : Nat) (res tr : String) (after : Rows) : String 
   let before := j.rows
   let consulted := before.get (j.prim == .up) u
   let accepted := res == "A"
-  let dirOK := pw != 0 && j.dir u == some pw
+  let dirOK := j.dirOK u pw
   if res != "A" && res != "R" then s!"viol login-error result {res}"
   else if pw == 0 && accepted then "viol empty-password-accepted the empty password was accepted"
   else if (traceVerdict tr).isSome && traceVerdict tr != some dirOK then
     s!"viol harness-directory-inconsistent bind trace {tr} but the directory holds {repr (j.dir u)}"
-  else match (if j.srv.any (· == Srv.up) then some dirOK else none) with
+  else match (if j.answers then some dirOK else none) with
   | some v =>
-    -- some server gives verdicts (ground truth of the harness, whether or not the code asked it)
+    -- some (server, bind pattern) pair gives verdicts (ground truth of the harness, whether or not the
+    -- code asked it): the first verdict in loop order is final
     if accepted != v then
       s!"viol dir-verdict-overridden a server was answering (directory verdict {if v then "accept" else "reject"}, binds seen: {tr}) but the login was {res}"
     else if v && j.prim != .down &&
@@ -264,8 +305,8 @@ def judgeStep (j : JSt) (fs : List String) : JSt × String :=
         match u.toNat?, pw.toNat? with
         | some u, some pw =>
           let verdict := judgeLogin j u pw res tr after
-          let conf := traceVerdict tr == some true && pw != 0 && j.dir u == some pw
-          let rejected := j.srv.any (· == Srv.up) && !(pw != 0 && j.dir u == some pw)
+          let conf := traceVerdict tr == some true && j.dirOK u pw
+          let rejected := j.answers && !j.dirOK u pw
           let evict := rejected && j.prim == .up &&
                        ((j.rows.get true u).map (validFor u pw) == some true) && (after.get true u).isNone
           let lost := rejected && j.prim != .up &&
@@ -291,6 +332,10 @@ def judgeStep (j : JSt) (fs : List String) : JSt × String :=
       | ["prim", p] =>
         match parsePrim p with
         | some p => ({ j' with prim := p }, "ok")
+        | none => (j, "bad-op")
+      | "pats" :: ks =>
+        match parsePats ks with
+        | some l => ({ j' with pats := l }, "ok")
         | none => (j, "bad-op")
       | ["sync"] =>
         if j.prim != .down then ({ j' with evictedSynced := j.evicted ++ j.evictedSynced }, "ok") else (j', "ok")
